@@ -30,7 +30,23 @@ def hypotheses(ctx, b):
             cl, cp = pipe.carbons(l), pipe.carbons(p)
             if cl is not None and cp is not None and cp > cl:
                 ctx.mismatch("oracle hypothesis H3 (impute_reaction refuses reactant-side carbon imbalance)", k, v[1], None)
-    # H2 is evaluated inside Coq on the model's own water step with the recorded composition tables (see run())
+    # H2 is evaluated inside Coq on the model's own water step with the recorded composition tables (see run()); the two primitive facts
+    # it is derived from (Proofs/WaterFact.v) are checked here on every recorded composition: (A) no zero entry, positive element counts;
+    # (B) a side recorded with and without trailing water molecules differs by exactly n x {H:2, O:1}
+    decd = {k: v for k, v in b["tables"].get("decomp", [])}
+    for k, v in decd.items():
+        ctx.count("hypotheses", "A_checked")
+        if any((x == 0) or (kk != "Q" and x < 0) for kk, x in v.items()):
+            ctx.mismatch("composition fact (A): well-formed composition dictionary", k, v, None)
+    for k, v in decd.items():
+        base, n = k, 0
+        while base.endswith(".O") and base[:-2] != "":
+            base, n = base[:-2], n + 1
+            if base in decd:
+                ctx.count("hypotheses", "B_checked")
+                w = dict(decd[base]); w["H"] = w.get("H", 0) + 2 * n; w["O"] = w.get("O", 0) + n
+                if {a: x for a, x in w.items() if x != 0} != {a: x for a, x in v.items() if x != 0}:
+                    ctx.mismatch("composition fact (B): appended water adds n x {H:2, O:1}", k, v, decd[base])
 
 
 def oracle(ctx, b, forced_carbon=False):
@@ -141,7 +157,7 @@ def run(ctx):
     for run in matrix.runs(ctx):
         ctx.count("matrix", run["config"][:40])
         # the statement is about the default threshold and about rows that do not pre-populate the tool's own output columns
-        if "threshold 0.5" in run["config"] or "fed in again" in run["config"]:
+        if (run.get("t") or 0) != 0 or "threshold 0.5" in run["config"] or "fed in again" in run["config"]:
             continue
         if not run["error"] and len(run["rows"]) == len(run["given"]):
             oracle(ctx, dict(matrix.as_batch(run), matrix=run["config"]))
